@@ -4,20 +4,22 @@ from concurrent.futures import ThreadPoolExecutor
 VIS="api_analyzer/_ast_visitor.py"; GEN="stubs_generator/_stub_string_generator.py"; GS="stubs_generator/_generate_stubs.py"; HELP="stubs_generator/_helper.py"; GA="api_analyzer/_get_api.py"; DP="docstring_parsing/_docstring_parser.py"; MH="api_analyzer/_mypy_helpers.py"
 TY="api_analyzer/_types.py"
 REWRITES = [
- ("rglob instead of glob pattern", GA, 'for file_path in root.glob(pattern="./**/*.py"):', 'for file_path in root.rglob("*.py"):'),
- ("lambda variable renamed", "api_analyzer/_api.py", '"modules": [module.to_dict() for module in sorted(self.modules.values(), key=lambda it: it.id)],', '"modules": [module.to_dict() for module in sorted(self.modules.values(), key=lambda module_: module_.id)],'),
- ("None / Literal branches swapped", VIS, '        elif isinstance(mypy_type, mp_types.NoneType):\n            return sds_types.NamedType(name="None", qname="builtins.None")\n        elif isinstance(mypy_type, mp_types.LiteralType):\n            return sds_types.LiteralType(literals=[mypy_type.value])',
-  '        elif isinstance(mypy_type, mp_types.LiteralType):\n            return sds_types.LiteralType(literals=[mypy_type.value])\n        elif isinstance(mypy_type, mp_types.NoneType):\n            return sds_types.NamedType(name="None", qname="builtins.None")'),
- ("enum signature by concatenation", GEN, 'enum_signature = f"{docstring}enum {_replace_if_safeds_keyword(enum_data.name)}"', 'enum_signature = docstring + f"enum {_replace_if_safeds_keyword(enum_data.name)}"'),
- ("redundant touch removed", GS, '        Path(file_path).touch()\n\n        with file_path.open("w", encoding="utf-8") as f:', '        with file_path.open("w", encoding="utf-8") as f:'),
- ("default-is-none from the inferred value", VIS, '                default_is_none = default_value is None\n', '                default_is_none = inferred_default_value is None\n'),
- ("union to_dict as comprehension", TY, '        type_list = []\n        for t in self.types:\n            type_list.append(t.to_dict())\n\n        return {"kind": self.__class__.__name__, "types": type_list}\n\n    def __hash__(self) -> int:\n        return hash(frozenset(self.types))\n\n    def __eq__(self, other: object) -> bool:\n        if not isinstance(other, UnionType)',
-  '        type_list = [t.to_dict() for t in self.types]\n\n        return {"kind": self.__class__.__name__, "types": type_list}\n\n    def __hash__(self) -> int:\n        return hash(frozenset(self.types))\n\n    def __eq__(self, other: object) -> bool:\n        if not isinstance(other, UnionType)'),
- ("reexported_by sort via sorted()", VIS, '        reexported_by.sort(key=lambda x: x.id)\n\n        # Get constructor docstring', '        reexported_by = sorted(reexported_by, key=lambda x: x.id)\n\n        # Get constructor docstring'),
- ("module header f-string split", GEN, '        module_header = f"{module_name_info}package {_replace_if_safeds_keyword_in_path(package_info_camel_case)}\\n"\n\n        # Create docstring', '        package_line = f"package {_replace_if_safeds_keyword_in_path(package_info_camel_case)}\\n"\n        module_header = module_name_info + package_line\n\n        # Create docstring'),
- ("is_static computed inline", VIS, None, None),
- ("walker visited check via early return style", "api_analyzer/_ast_walker.py", '        if node in visited_nodes:  # pragma: no cover\n            raise AssertionError("Node visited twice")\n        visited_nodes.add(node)', '        if node in visited_nodes:  # pragma: no cover\n            raise AssertionError("Node visited twice")\n        visited_nodes |= {node}'),
- ("todo flush text via list join variable", GEN, '        return indentations + f"\\n{indentations}".join(todo_msgs) + "\\n"', '        joined = f"\\n{indentations}".join(todo_msgs)\n        return indentations + joined + "\\n"'),
+ ("receiver skip via enumerate index", GEN, '        first_loop_skipped = False\n        for parameter in parameters:\n            # Skip self parameter for functions\n            if is_instance_method and not first_loop_skipped:\n                first_loop_skipped = True\n                continue\n',
+  '        for parameter_index, parameter in enumerate(parameters):\n            # Skip self parameter for functions\n            if is_instance_method and parameter_index == 0:\n                continue\n'),
+ ("bool default via conditional on identity", GEN, 'default_value = "true" if param_default_value else "false"', 'default_value = "false" if not param_default_value else "true"'),
+ ("variadic test as two equalities", GEN, 'if assigned_by in {ParameterAssignment.POSITIONAL_VARARG, ParameterAssignment.NAMED_VARARG}:\n                self._current_todo_msgs.add("variadic")', 'if assigned_by == ParameterAssignment.POSITIONAL_VARARG or assigned_by == ParameterAssignment.NAMED_VARARG:\n                self._current_todo_msgs.add("variadic")'),
+ ("name annotation via conditional expression", GEN, '            name_annotation = ""\n            if camel_case_name != name:\n                # Memorize the changed name for the @PythonName() annotation\n                name_annotation = f"{_create_name_annotation(name)} "\n\n            # Check if it\'s a Safe-DS keyword and escape it\n            camel_case_name = _replace_if_safeds_keyword(camel_case_name)\n\n            # Create string and append to the list',
+  '            name_annotation = f"{_create_name_annotation(name)} " if camel_case_name != name else ""\n\n            # Check if it\'s a Safe-DS keyword and escape it\n            camel_case_name = _replace_if_safeds_keyword(camel_case_name)\n\n            # Create string and append to the list'),
+ ("parameter text joined from a list", GEN, '            parameters_data.append(\n                f"{name_annotation}{camel_case_name}{type_string}{param_value}",\n            )', '            parameters_data.append("".join([name_annotation, camel_case_name, type_string, param_value]))'),
+ ("empty parameter list test first", GEN, '        inner_indentations = indentations + INDENTATION\n        if parameters_data:\n            inner_param_data = f",\\n{inner_indentations}".join(parameters_data)\n            return f"\\n{inner_indentations}{inner_param_data}\\n{indentations}"\n        return ""',
+  '        if not parameters_data:\n            return ""\n        inner_indentations = indentations + INDENTATION\n        inner_param_data = f",\\n{inner_indentations}".join(parameters_data)\n        return f"\\n{inner_indentations}{inner_param_data}\\n{indentations}"'),
+ ("cached docstring miss path reordered", DP, None, None),
+ ("stack pop and check merged", VIS, '        function = self.__declaration_stack.pop()\n        if not isinstance(function, Function):  # pragma: no cover\n            raise AssertionError("Imbalanced push/pop on stack")  # noqa: TRY004\n\n        if len(self.__declaration_stack) > 0:\n            parent = self.__declaration_stack[-1]\n\n            # Add the data of the function',
+  '        function = self.__declaration_stack.pop()\n        if not isinstance(function, Function):  # pragma: no cover\n            raise AssertionError("Imbalanced push/pop on stack")  # noqa: TRY004\n\n        if self.__declaration_stack:\n            parent = self.__declaration_stack[-1]\n\n            # Add the data of the function'),
+ ("results kept test inverted", GEN, None, None),
+ ("shortest reexport key as lambda with default", HELP, None, None),
+ ("types sorted via sorted()", GEN, '            types = list({self._create_type_string(type_) for type_ in type_data["types"]})\n            types.sort()', '            types = sorted({self._create_type_string(type_) for type_ in type_data["types"]})'),
+ ("api add_class via update", "api_analyzer/_api.py", '        self.classes[class_.id] = class_', '        self.classes.update({class_.id: class_})'),
 ]
 PROPS=[f"C{i:02d}" for i in range(1,21)]
 def run(prop, repo):
